@@ -53,7 +53,7 @@ class _Frame:
 
     def __init__(self, types: List[List[str]]) -> None:
         self.types = types  # per handler: list of class names ([] = bare except)
-        self.arrivals: List[Dict[str, Origin]] = [dict() for _ in types]
+        self.arrivals: List[Dict[str, Dict[str, Origin]]] = [dict() for _ in types]
 
 
 class EscapeAnalysis:
@@ -68,7 +68,9 @@ class EscapeAnalysis:
         self.cg = cg
         self.folder = folder
         self.implicit = implicit
-        self.raises: Dict[str, Dict[str, Origin]] = {q: {} for q in repo.functions}
+        # function -> exception class -> {origin key -> Origin} (several origins per
+        # class are kept so that each offending construct is reported)
+        self.raises: Dict[str, Dict[str, Dict[str, Origin]]] = {q: {} for q in repo.functions}
         self._implicit_cache: Dict[str, List[Tuple[ast.AST, List[str], str]]] = {}
         self.handler_facts: List[Dict[str, object]] = []
         self._solve()
@@ -106,9 +108,14 @@ class EscapeAnalysis:
             for fn in funcs:
                 new = self._function(fn)
                 old = self.raises[fn.qualname]
-                if set(new) != set(old):
-                    changed = True
-                    self.raises[fn.qualname] = new
+                # monotone accumulation (the per-class cap makes plain replacement
+                # order dependent)
+                for c, d in new.items():
+                    tgt = old.setdefault(c, {})
+                    for k, o in d.items():
+                        if k not in tgt and len(tgt) < self.MAX_ORIGINS:
+                            tgt[k] = o
+                            changed = True
             if not changed:
                 break
         else:
@@ -121,8 +128,8 @@ class EscapeAnalysis:
             self._implicit_cache[fn.qualname] = self.implicit(fn)
         return self._implicit_cache[fn.qualname]
 
-    def _function(self, fn: FuncInfo) -> Dict[str, Origin]:
-        out: Dict[str, Origin] = {}
+    def _function(self, fn: FuncInfo) -> Dict[str, Dict[str, Origin]]:
+        out: Dict[str, Dict[str, Origin]] = {}
         implicit_by_node: Dict[int, List[Tuple[List[str], str]]] = {}
         for node, classes, label in self._implicit_sites(fn):
             implicit_by_node.setdefault(id(node), []).append((classes, label))
@@ -130,13 +137,25 @@ class EscapeAnalysis:
         return out
 
     # ------------------------------------------------------------ emission
-    def _emit(self, exc: str, origin: Origin, stack: List[_Frame], out: Dict[str, Origin]) -> None:
+    MAX_ORIGINS = 16
+
+    @staticmethod
+    def _okey(o: Origin) -> str:
+        return f"{o.func}|{o.what}"
+
+    def _put(self, table: Dict[str, Dict[str, Origin]], exc: str, origin: Origin) -> None:
+        d = table.setdefault(exc, {})
+        k = self._okey(origin)
+        if k not in d and len(d) < self.MAX_ORIGINS:
+            d[k] = origin
+
+    def _emit(self, exc: str, origin: Origin, stack: List[_Frame], out: Dict[str, Dict[str, Origin]]) -> None:
         for frame in reversed(stack):
             for i, types in enumerate(frame.types):
                 if not types or any(self.catches(t, exc) for t in types):
-                    frame.arrivals[i].setdefault(exc, origin)
+                    self._put(frame.arrivals[i], exc, origin)
                     return
-        out.setdefault(exc, origin)
+        self._put(out, exc, origin)
 
     def _origin(self, fn: FuncInfo, node: ast.AST, what: Optional[str] = None) -> Origin:
         return Origin(fn.qualname, fn.relpath, getattr(node, "lineno", fn.lineno), what or short(node, 80))
@@ -147,9 +166,9 @@ class EscapeAnalysis:
         fn: FuncInfo,
         stmts: List[ast.stmt],
         stack: List[_Frame],
-        out: Dict[str, Origin],
+        out: Dict[str, Dict[str, Origin]],
         implicit: Dict[int, List[Tuple[List[str], str]]],
-        caught: Optional[Tuple[Optional[str], Dict[str, Origin]]],
+        caught: Optional[Tuple[Optional[str], Dict[str, Dict[str, Origin]]]],
     ) -> None:
         for s in stmts:
             self._walk_stmt(fn, s, stack, out, implicit, caught)
@@ -171,9 +190,9 @@ class EscapeAnalysis:
         fn: FuncInfo,
         s: ast.stmt,
         stack: List[_Frame],
-        out: Dict[str, Origin],
+        out: Dict[str, Dict[str, Origin]],
         implicit: Dict[int, List[Tuple[List[str], str]]],
-        caught: Optional[Tuple[Optional[str], Dict[str, Origin]]],
+        caught: Optional[Tuple[Optional[str], Dict[str, Dict[str, Origin]]]],
     ) -> None:
         if isinstance(s, (ast.FunctionDef, ast.AsyncFunctionDef, ast.ClassDef)):
             return
@@ -209,15 +228,17 @@ class EscapeAnalysis:
             if s.exc is None:
                 if caught is None:
                     raise AnalysisError(f"bare raise outside handler in {fn.qualname}")
-                for exc, org in caught[1].items():
-                    self._emit(exc, org, stack, out)
+                for exc, orgs in caught[1].items():
+                    for org in orgs.values():
+                        self._emit(exc, org, stack, out)
                 return
             self._exprs(fn, s.exc, stack, out, implicit)
             if s.cause is not None:
                 self._exprs(fn, s.cause, stack, out, implicit)
             if isinstance(s.exc, ast.Name) and caught is not None and s.exc.id == caught[0]:
-                for exc, org in caught[1].items():
-                    self._emit(exc, org, stack, out)
+                for exc, orgs in caught[1].items():
+                    for org in orgs.values():
+                        self._emit(exc, org, stack, out)
                 return
             name = self.exc_name(fn, s.exc)
             if name is None:
@@ -240,7 +261,7 @@ class EscapeAnalysis:
         fn: FuncInfo,
         node: ast.AST,
         stack: List[_Frame],
-        out: Dict[str, Origin],
+        out: Dict[str, Dict[str, Origin]],
         implicit: Dict[int, List[Tuple[List[str], str]]],
     ) -> None:
         for sub in ast.walk(node):
@@ -249,21 +270,23 @@ class EscapeAnalysis:
             site = self.cg.by_node.get(id(sub))
             if site is not None and site.kind in ("call", "prop", "dunder"):
                 for callee in site.callees:
-                    for exc, org in self.raises.get(callee.qualname, {}).items():
-                        via = (fn.qualname,) + org.via if org.func != fn.qualname else org.via
-                        self._emit(
-                            exc,
-                            Origin(org.func, org.file, org.line, org.what, via[:8]),
-                            stack,
-                            out,
-                        )
+                    for exc, orgs in self.raises.get(callee.qualname, {}).items():
+                        for org in orgs.values():
+                            via = (fn.qualname,) + org.via if org.func != fn.qualname else org.via
+                            self._emit(
+                                exc,
+                                Origin(org.func, org.file, org.line, org.what, via[:8]),
+                                stack,
+                                out,
+                            )
             elif site is not None and site.kind == "ref":
                 # a function reference handed to someone who calls it (reduce,
                 # filter, partial...): treated as called here
                 for callee in site.callees:
-                    for exc, org in self.raises.get(callee.qualname, {}).items():
-                        self._emit(exc, Origin(org.func, org.file, org.line, org.what,
-                                               ((fn.qualname,) + org.via)[:8]), stack, out)
+                    for exc, orgs in self.raises.get(callee.qualname, {}).items():
+                        for org in orgs.values():
+                            self._emit(exc, Origin(org.func, org.file, org.line, org.what,
+                                                   ((fn.qualname,) + org.via)[:8]), stack, out)
             for classes, label in implicit.get(id(sub), []):
                 for c in classes:
                     self._emit(c, self._origin(fn, sub, f"{label}: {short(sub, 60)}"), stack, out)
@@ -271,10 +294,14 @@ class EscapeAnalysis:
 
     # ---------------------------------------------------------------- query
     def function_escapes(self, fn: FuncInfo) -> Dict[str, Origin]:
-        return self.raises.get(fn.qualname, {})
+        """class -> one representative origin."""
+        return {c: next(iter(d.values())) for c, d in self.raises.get(fn.qualname, {}).items() if d}
+
+    def function_escapes_all(self, fn: FuncInfo) -> Dict[str, List[Origin]]:
+        return {c: list(d.values()) for c, d in self.raises.get(fn.qualname, {}).items() if d}
 
     def block_escapes(self, fn: FuncInfo, stmts: List[ast.stmt]) -> Set[str]:
-        out: Dict[str, Origin] = {}
+        out: Dict[str, Dict[str, Origin]] = {}
         implicit_by_node: Dict[int, List[Tuple[List[str], str]]] = {}
         for node, classes, label in self._implicit_sites(fn):
             implicit_by_node.setdefault(id(node), []).append((classes, label))
@@ -282,9 +309,9 @@ class EscapeAnalysis:
         return set(out)
 
     def expr_escapes(self, fn: FuncInfo, node: ast.AST) -> Dict[str, Origin]:
-        out: Dict[str, Origin] = {}
+        out: Dict[str, Dict[str, Origin]] = {}
         implicit_by_node: Dict[int, List[Tuple[List[str], str]]] = {}
         for n, classes, label in self._implicit_sites(fn):
             implicit_by_node.setdefault(id(n), []).append((classes, label))
         self._exprs(fn, node, [], out, implicit_by_node)
-        return out
+        return {c: next(iter(d.values())) for c, d in out.items() if d}
